@@ -509,7 +509,7 @@ def run(ctx):
         plans = [(2, CONFIGS_ALL, 1, 400, None), (2, two_dirs, 2, 5000, ERASERS), (2, post_cfgs, 0, 50, None),
                  (3, [(False, False, True, False, True)], 0, 50, None)]
     else:
-        plans = [(2, CONFIGS_ALL, 2, 2000, None), (2, post_cfgs, 1, 500, None), (3, default_cfgs, 1, 300, None), (2, two_dirs, 3, 5000, ERASERS)]
+        plans = [(2, CONFIGS_ALL, 2, 20000, None), (2, post_cfgs, 1, 500, None), (3, two_dirs, 0, 50, None), (3, two_dirs, 1, 200, ERASERS), (2, two_dirs, 3, 50000, ERASERS)]
     for max_ops, cfgs, bound, cap, only in plans:
         for _, st in pmap(_shard, [(max_ops, cfgs, bound, i, n, ctx.seed, cap, only) for i in range(n)]):
             ctx.merge(st)
